@@ -90,6 +90,16 @@ class Context:
         self._gtab[name] = r
         return r
 
+    def global_table_values(self, name):
+        """Flattened initialiser values of the (defined) global table `name`, or None."""
+        for g in self.prog.globals.get(name, []):
+            if "init" not in g:
+                continue
+            vals = []
+            if self._flatten(g["exprs"], g["init"], vals):
+                return vals, g
+        return None, None
+
     def global_column_range(self, name, field):
         """Range of member `field` over the elements of a constant table of records."""
         for g in self.prog.globals.get(name, []):
